@@ -59,9 +59,14 @@ const NON_ASCII_PROGRAM: &str = "(import (scheme base) (scheme write))\n; ком
 /// macros expanding to definitions and assignments inside procedures
 const MACRO_PROGRAM: &str = "(import (scheme base) (scheme write))\n(define-syntax def-getter\n  (syntax-rules ()\n    ((def-getter name value)\n     (define-syntax name (syntax-rules () ((name) value))))))\n(def-getter seven 7)\n(display (seven))\n(define-syntax swap!\n  (syntax-rules ()\n    ((swap! a b) ((lambda (tmp) (set! a b) (set! b tmp)) a))))\n(define p 1)\n(define q 2)\n(swap! p q)\n(display (list p q))\n(define-syntax my-or\n  (syntax-rules ()\n    ((my-or) #f)\n    ((my-or e) e)\n    ((my-or e r ...) ((lambda (t) (if t t (my-or r ...))) e))))\n(display (my-or #f #f 3))\n(define-syntax twice (syntax-rules () ((twice e) (+ e e))))\n(define (f x) (twice (twice x)))\n(display (f 4))\n(define-syntax def-two\n  (syntax-rules ()\n    ((def-two a b v) ((lambda () (define a v) (define b v) (+ a b))))))\n(display (def-two x y 5))\n(newline)\n";
 
+/// macros whose templates repeat elements with several ellipsis variables (single-digit items:
+/// one lost byte changes how many items a variable matched)
+const ELLIPSIS_PROGRAM: &str = "(import (scheme base) (scheme write))\n(define-syntax sum-pairs\n  (syntax-rules ()\n    ((sum-pairs (a ...) (b ...)) (list (+ a b) ...))))\n(display (sum-pairs (1 2 3 4) (5 6 7 8)))\n(define-syntax my-let\n  (syntax-rules ()\n    ((my-let ((n v) ...) body ...) ((lambda (n ...) body ...) v ...))))\n(display (my-let ((x 1) (y 2) (z 3)) (+ x y z)))\n(define-syntax flat\n  (syntax-rules ()\n    ((flat (a b ...) ...) (list (list a b ...) ...))))\n(display (flat (1 2 3) (4 5) (6 7)))\n(define-syntax for\n  (syntax-rules (in)\n    ((for x in (e ...) body) (list ((lambda (x) body) e) ...))))\n(display (for y in (1 2 3) (* y y)))\n(define-syntax zip3\n  (syntax-rules ()\n    ((zip3 (a ...) (b ...) (c ...)) (list (list a b c) ...))))\n(display (zip3 (1 2 3) (4 5 6) (7 8 9)))\n(newline)\n";
+
 fn pick_world(rng: &mut Rng) -> (Vec<(String, Vec<u8>)>, String) {
-    let c = rng.upto(12);
+    let c = rng.upto(13);
     match c {
+        12 => (vec![("main.scm".into(), ELLIPSIS_PROGRAM.as_bytes().to_vec())], "ellipsis-program".into()),
         11 => (vec![("main.scm".into(), MACRO_PROGRAM.as_bytes().to_vec())], "macro-program".into()),
         10 => (vec![("main.scm".into(), NON_ASCII_PROGRAM.as_bytes().to_vec())], "non-ascii-program".into()),
         0 | 1 | 2 => {
